@@ -30,6 +30,30 @@ pub fn rand_cnf(rng: &mut Rng, max_vars: usize, max_clauses: usize, max_occ: usi
     out
 }
 
+/// clauses of 3..5 distinct variables (watches have to move several times before a clause becomes unit)
+pub fn wide_cnf(rng: &mut Rng, max_vars: usize, max_occ: usize) -> Vec<Vec<(usize, bool)>> {
+    let nv = rng.range(4.min(max_vars), max_vars);
+    let mut occ = 0;
+    let mut out: Vec<Vec<(usize, bool)>> = vec![];
+    loop {
+        let w = if rng.chance(1, 4) { 2 } else { rng.range(3, 5.min(nv)) };
+        if occ + w > max_occ {
+            break;
+        }
+        occ += w;
+        let mut vars: Vec<usize> = (0..nv).collect();
+        for i in 0..w {
+            let j = i + rng.below(nv - i);
+            vars.swap(i, j);
+        }
+        out.push(vars[..w].iter().map(|v| (*v, rng.coin())).collect());
+        if out.len() >= 3 && rng.chance(1, 6) {
+            break;
+        }
+    }
+    out
+}
+
 pub fn mk_cnf(c: &[Vec<(usize, bool)>]) -> Cnf {
     let cl: Vec<Vec<Literal>> = c
         .iter()
@@ -83,11 +107,13 @@ pub fn record_sat(args: &Args) {
     let segs = args.num("segments", 20) as usize;
     let len = args.num("len", 40) as usize;
     let nmax = args.num("nmax", 5) as usize;
+    let attack = args.num("attack", 0) != 0;
+    let wide = args.num("wide", 0) != 0;
     let mut out = Out::new(&args.str("out", "-"));
     let mut rng = Rng::new(seed ^ 0x5a7);
     out.emit(json!({"ev": "init", "kind": "sat", "nmax": nmax, "seed": seed}));
     for _ in 0..segs {
-        let c = rand_cnf(&mut rng, nmax, 8, 25);
+        let c = if wide { wide_cnf(&mut rng, nmax, 25) } else { rand_cnf(&mut rng, nmax, 8, 25) };
         let cnf = mk_cnf(&c);
         let nv = cnf.num_vars();
         let mut ev = json!({"ev": "snew", "nv": nv, "cnf": stored_json(&cnf)});
@@ -130,7 +156,24 @@ pub fn record_sat(args: &Args) {
                     break;
                 }
             } else {
-                let (v, p) = (rng.below(nv), rng.coin());
+                let (mut v, mut p) = (rng.below(nv), rng.coin());
+                if attack && rng.chance(2, 3) {
+                    // adversarial driver: falsify an unassigned literal of a clause that has no true literal yet, so that
+                    // clauses are driven to unit / falsified through every one of their literals (watched or not)
+                    let m = s.verif_model();
+                    let val = |l: &(usize, bool)| m.get(VarLabel::new_usize(l.0)).map(|b| b == l.1);
+                    let open: Vec<&Vec<(usize, bool)>> = c
+                        .iter()
+                        .filter(|cl| !cl.iter().any(|l| val(l) == Some(true)) && cl.iter().filter(|l| val(l).is_none()).count() >= 2)
+                        .collect();
+                    if !open.is_empty() {
+                        let cl = open[rng.below(open.len())];
+                        let un: Vec<&(usize, bool)> = cl.iter().filter(|l| val(l).is_none()).collect();
+                        let l = un[rng.below(un.len())];
+                        v = l.0;
+                        p = !l.1;
+                    }
+                }
                 let lit = if p { v as i64 + 1 } else { -(v as i64 + 1) };
                 let mut ev = json!({"ev": "decide", "lit": lit});
                 match guarded(|| s.decide(Literal::new(VarLabel::new_usize(v), p))) {
